@@ -185,6 +185,7 @@ package keeper
 //@   ensures [C08] #c08-pool-holds-loan: err == nil ==> loan.Amount <= old(bal(modaddr(k.GetPool(ctx, pair.AssetOutPoolID).0.ModuleName), loan.Denom)) && loan.Denom == aout.Denom
 //@   ensures [C08] #c08-borrowed-total-moves-with-loan: err == nil && k.GetAssetStatsByPoolIDAndAssetID(ctx, pair.AssetOutPoolID, pair.AssetOut).1 ==> so1.TotalBorrowed + so1.TotalStableBorrowed == so0.TotalBorrowed + so0.TotalStableBorrowed + loan.Amount
 //@   ensures [C08] #c08-pledge-from-available: err == nil && fresh ==> AmountIn.Amount <= l0.AvailableToBorrow && l1.AvailableToBorrow == l0.AvailableToBorrow - AmountIn.Amount
+//@   ensures [C08] #c08-pledge-from-available-bridged: err == nil && pair.IsInterPool && !k.HasBorrowForAddressByPair(ctx, addr, pairID) ==> AmountIn.Amount <= l0.AvailableToBorrow && l1.AvailableToBorrow == l0.AvailableToBorrow - AmountIn.Amount
 
 // Read-only lookups that scan lists: deterministic functions of the lend store (abstracted as such at call sites).
 //@ func (k Keeper) HasBorrowForAddressByPair
